@@ -69,12 +69,16 @@ pub mod crate_error { pub type Error = super::Error; }
 //   * a limit error carries no text, and after it the lexer yields nothing (proved for the real
 //     Lexer::next in unit `limits`: limit_item_finishes, finished_is_final);
 //   * None is returned only after the limit was hit or once the whole text has been handed out.
-#[verifier::external_body]
-pub struct Lexer<'a> { p: core::marker::PhantomData<&'a ()> }
+pub struct LexState { pub rest: Seq<char>, pub fuel: nat, pub limited: bool }
+pub struct Lexer<'a> { pub limit_tracker: LimitTracker, pub st: Ghost<LexState>, pub p: core::marker::PhantomData<&'a ()> }
 impl<'a> Lexer<'a> {
-    pub uninterp spec fn rest(&self) -> Seq<char>;
-    pub uninterp spec fn fuel(&self) -> nat;
-    pub uninterp spec fn limited(&self) -> bool;
+    pub open spec fn rest(&self) -> Seq<char> { self.st@.rest }
+    pub open spec fn fuel(&self) -> nat { self.st@.fuel }
+    pub open spec fn limited(&self) -> bool { self.st@.limited }
+    #[verifier::external_body]
+    pub fn new(input: &'a str) -> (r: Self) ensures r.rest() == input@, !r.limited() { unimplemented!() }
+    #[verifier::external_body]
+    pub fn with_limit(self, limit: usize) -> (r: Self) ensures r.rest() == self.rest(), r.fuel() == self.fuel(), r.limited() == self.limited() { unimplemented!() }
     #[verifier::external_body]
     pub fn next(&mut self) -> (r: Option<Result<Token<'a>, Error>>)
         ensures
@@ -106,6 +110,22 @@ impl SyntaxTreeBuilder {
     pub fn start_node(&mut self, kind: SyntaxKind) ensures final(self).text() == old(self).text() { unimplemented!() }
     #[verifier::external_body]
     pub fn checkpoint(&self) -> RowanCheckpoint { unimplemented!() }
+    #[verifier::external_body]
+    pub fn new() -> (r: Self) ensures r.text() =~= Seq::<char>::empty() { unimplemented!() }
+    // finish_*: hand the accumulated errors and limit trackers to the tree, unchanged (syntax_tree.rs; not extracted: rowan)
+    #[verifier::external_body]
+    pub fn finish_type(self, errors: Vec<Error>, recursion_limit: LimitTracker, token_limit: LimitTracker) -> (r: syntax_tree::SyntaxTreeWrapper)
+        ensures r is Type, r->Type_0.errors == errors, r->Type_0.recursion_limit == recursion_limit, r->Type_0.token_limit == token_limit { unimplemented!() }
+    #[verifier::external_body]
+    pub fn finish_selection_set(self, errors: Vec<Error>, recursion_limit: LimitTracker, token_limit: LimitTracker) -> (r: syntax_tree::SyntaxTreeWrapper)
+        ensures r is FieldSet, r->FieldSet_0.errors == errors, r->FieldSet_0.recursion_limit == recursion_limit, r->FieldSet_0.token_limit == token_limit { unimplemented!() }
+}
+pub struct Type { pub x: u8 }
+pub struct SelectionSet { pub x: u8 }
+pub struct Document { pub x: u8 }
+pub struct SyntaxTree<T> { pub errors: Vec<Error>, pub recursion_limit: LimitTracker, pub token_limit: LimitTracker, pub t: core::marker::PhantomData<T> }
+pub mod syntax_tree {
+    pub enum SyntaxTreeWrapper { Document(super::SyntaxTree<super::Document>), Type(super::SyntaxTree<super::Type>), FieldSet(super::SyntaxTree<super::SelectionSet>) }
 }
 // NodeGuard / Checkpoint: hold an Rc to the builder and call finish_node / wrap_node (no text effect).
 // The aliasing through Rc<RefCell<..>> is dropped in this model (rewrite listed).
@@ -168,11 +188,15 @@ impl<'input> Parser<'input> {
         &&& pending_wf(self.pending@)                               // C01: push_ignored's unreachable!()
         &&& (self.lexer.limited() ==> !self.accept_errors)          // C04: token limit hit => errors are frozen
         &&& (!self.accept_errors ==> self.errors@.len() > 0)        // a limit error was recorded
-        &&& self.recursion_limit.current < usize::MAX               // machine-arithmetic side condition
+        &&& self.recursion_limit.current <= self.recursion_limit.limit   // C04: nesting never exceeds the limit
+        &&& self.recursion_limit.limit < usize::MAX                 // machine-arithmetic side condition (a limit of 2^64-1 is meaningless)
     }
     /// what every primitive guarantees
     pub open spec fn conserved(&self, o: &Self) -> bool {
         &&& self.all_text() =~= o.all_text()                                    // C02 nothing lost, nothing duplicated, order kept
+        &&& self.advanced(o)
+    }
+    pub open spec fn advanced(&self, o: &Self) -> bool {
         &&& is_prefix(o.builder.text(), self.builder.text())                    // C04 the tree only ever grows at the end
         &&& self.wf()
         &&& self.recursion_limit.current == o.recursion_limit.current           // C04/C01 balanced bookkeeping
@@ -192,6 +216,13 @@ impl<'input> Parser<'input> {
 pub proof fn lemma_conserved_trans(a: &Parser, b: &Parser, c: &Parser)
     requires b.conserved(a), c.conserved(b)
     ensures c.conserved(a)
+{
+    lemma_prefix_trans(a.builder.text(), b.builder.text(), c.builder.text());
+    assert(c.errors@.subrange(0, a.errors@.len() as int) =~= b.errors@.subrange(0, a.errors@.len() as int));
+}
+pub proof fn lemma_advanced_trans(a: &Parser, b: &Parser, c: &Parser)
+    requires b.advanced(a), c.advanced(b)
+    ensures c.advanced(a)
 {
     lemma_prefix_trans(a.builder.text(), b.builder.text(), c.builder.text());
     assert(c.errors@.subrange(0, a.errors@.len() as int) =~= b.errors@.subrange(0, a.errors@.len() as int));
@@ -240,7 +271,8 @@ WF = ("requires", "wf", "old(self).wf()")
 # The callers always peek before consuming; without a look-ahead token, a lexer error fetched *inside* eat()/err_and_pop()
 # would be queued behind the token that is pushed first (order of the tree text would differ from the source).
 LOOK = ("requires", "lookahead_present", "old(self).current_token is Some")
-KEEP = ("ensures", "significant_lookahead_kept", "(old(self).current_token is Some && !ignored_kind(old(self).current_token->0.kind)) ==> final(self).current_token == old(self).current_token && final(self).lexer == old(self).lexer && final(self).errors == old(self).errors")
+KEEP = ("ensures", "significant_lookahead_kept", "(old(self).current_token is Some && !ignored_kind(old(self).current_token->0.kind)) ==> final(self).current_token == old(self).current_token && final(self).lexer == old(self).lexer && final(self).errors == old(self).errors && final(self).accept_errors == old(self).accept_errors")
+FLUSH = ("ensures", "queue_flushed_before_significant_lookahead", "(old(self).current_token is Some && !ignored_kind(old(self).current_token->0.kind)) ==> final(self).pending@.len() == 0 && final(self).builder.text() =~= old(self).builder.text() + pending_text(old(self).pending@)")
 
 
 def P(name, clauses, **kw):
@@ -264,6 +296,17 @@ PEEK_POST = [
 lim = [p for p in LIMITS_UNIT["parts"] if isinstance(p, dict) and p.get("container") == "LimitTracker" or (isinstance(p, dict) and p.get("name") == "LimitTracker")]
 
 GR = ["C01", "C02", "C04"]
+GWF = ("requires", "wf", "old(p).wf()")
+# Verus does not support `mut self` parameters: alpha-rename (mechanical): fn f(mut self) {..self..} => fn f(self_in: Self) { let mut this = self_in; ..this.. }
+MUTSELF_1 = (r"\(mut self\)([^{]*)\{", r"(self_in: Self)\1{ let mut this = self_in;", 1, "re")
+MUTSELF_2 = (r"\bself\b", "this", None, "re")
+
+
+def G(file, name, clauses, **kw):
+    d = dict(file=file, kind="fn", name=name, clauses=clauses, props=["C01", "C02", "C04", "C07"])
+    d.update(kw)
+    return d
+
 
 UNIT = {
     "name": "parser_core",
@@ -343,13 +386,13 @@ UNIT = {
                  ("ensures", "result", "r <==> (final(self).current_token is Some && final(self).current_token->0.kind == token)"),
                  ("ensures", "lookahead_stable", "old(self).current_token is Some ==> final(self).current_token == old(self).current_token && final(self).pending == old(self).pending && final(self).lexer == old(self).lexer && final(self).errors == old(self).errors && final(self).accept_errors == old(self).accept_errors"),
                  ]),
-        P("skip_ignored", [WF, ("ensures", "conserved", C), ("ensures", "tree_untouched", "final(self).builder == old(self).builder"), ("ensures", "fuel", F),
+        P("skip_ignored", [WF, ("ensures", "queue_kept_before_significant_lookahead", "(old(self).current_token is Some && !ignored_kind(old(self).current_token->0.kind)) ==> final(self).pending == old(self).pending"), ("ensures", "conserved", C), ("ensures", "tree_untouched", "final(self).builder == old(self).builder"), ("ensures", "fuel", F),
                            ("ensures", "stops_at_significant", "final(self).current_token is Some ==> !ignored_kind(final(self).current_token->0.kind)"), KEEP,
                            ("ensures", "none_means_exhausted", "final(self).current_token is None ==> (final(self).lexer.limited() || final(self).lexer.rest() =~= Seq::<char>::empty())"),
                            ],
           n_loops=1,
           loops=[dict(invariant=[("conserved", "self.conserved(old(self)), self.builder == old(self).builder"), ("fuel", "self.fuel() <= old(self).fuel()"),
-                                 ("significant_lookahead_kept", "(old(self).current_token is Some && !ignored_kind(old(self).current_token->0.kind)) ==> self.current_token == old(self).current_token && self.lexer == old(self).lexer && self.errors == old(self).errors")],
+                                 ("significant_lookahead_kept", "(old(self).current_token is Some && !ignored_kind(old(self).current_token->0.kind)) ==> self.current_token == old(self).current_token && self.lexer == old(self).lexer && self.errors == old(self).errors && self.accept_errors == old(self).accept_errors && self.pending == old(self).pending")],
                       ensures=[("stops_at_significant", "self.current_token is Some ==> !ignored_kind(self.current_token->0.kind)"),
                                ("none_means_exhausted", "self.current_token is None ==> (self.lexer.limited() || self.lexer.rest() =~= Seq::<char>::empty())")],
                       decreases="self.fuel()")],
@@ -377,14 +420,14 @@ UNIT = {
                "        lemma_prefix_append(old(self).builder.text(), pending_text(ps)); assert(self.errors@.subrange(0, self.errors@.len() as int) =~= self.errors@); }"),
           ]),
     
-        P("eat", [WF, LOOK, ("ensures", "conserved", C), ("ensures", "fuel", F),
+        P("eat", [WF, LOOK, ("ensures", "conserved", C), ("ensures", "fuel_strictly_decreases", "final(self).fuel() < old(self).fuel()"),
                   ("ensures", "errors_untouched", "final(self).errors == old(self).errors && final(self).accept_errors == old(self).accept_errors"),
                   ("ensures", "consumes_lookahead", "final(self).current_token is None && final(self).pending@.len() == 0 && final(self).lexer == old(self).lexer && final(self).builder.text() =~= old(self).builder.text() + pending_text(old(self).pending@) + old(self).current_token->0.data@")],
           hints=[("before", "if self.current().is_none() {", "let ghost s1 = *self;"),
                  ("before", "let token = self.pop();", "let ghost s2 = *self; proof { lemma_conserved_trans(&*old(self), &s1, &s2); assert(s2.pending@.len() == 0); }"),
                  ("body_end", None, "proof { let a = s2.builder.text(); lemma_prefix_append(a, token.data@); lemma_prefix_trans(old(self).builder.text(), a, self.builder.text());\n"
                                     "        assert(self.errors@.subrange(0, old(self).errors@.len() as int) =~= s2.errors@.subrange(0, old(self).errors@.len() as int)); assert(pending_text(self.pending@) =~= Seq::<char>::empty()); }")]),
-        P("bump", [WF, LOOK, ("ensures", "conserved", C), ("ensures", "fuel", F),
+        P("bump", [WF, LOOK, ("ensures", "conserved", C), ("ensures", "fuel_strictly_decreases", "final(self).fuel() < old(self).fuel()"),
                    ("ensures", "tree_gets_lookahead", "is_prefix(old(self).builder.text() + pending_text(old(self).pending@) + old(self).current_token->0.data@, final(self).builder.text())"),
                    ("ensures", "stops_at_significant", "final(self).current_token is Some ==> !ignored_kind(final(self).current_token->0.kind)")],
           hints=[("after", "self.eat(kind);", "let ghost s1 = *self;"),
@@ -416,13 +459,13 @@ UNIT = {
                  ("after", "self.bump(kind);", "proof { lemma_conserved_trans(&*old(self), &s2, &*self); }"),
                  ("before", "let err = if is_eof {", "let ghost s3 = *self; proof { lemma_conserved_trans(&*old(self), &s1, &s3); }"),
                  ("body_end", None, "proof { lemma_conserved_trans(&*old(self), &s3, &*self); }")]),
-        P("start_node", [WF, ("ensures", "conserved", C), ("ensures", "fuel", F), KEEP,
+        P("start_node", [WF, ("ensures", "conserved", C), ("ensures", "fuel", F), KEEP, FLUSH,
                          ("ensures", "stops_at_significant", "final(self).current_token is Some ==> !ignored_kind(final(self).current_token->0.kind)")],
           rewrites=BORROW + [("NodeGuard::new(self.builder.clone())", "NodeGuard::new_shim()", 1)],
           hints=[("after", "self.push_ignored();", "let ghost s1 = *self;"),
                  ("before", "self.skip_ignored();", "let ghost s2 = *self; proof { assert(s2.conserved(&s1)) by { lemma_conserved_refl(&s1); }; lemma_conserved_trans(&*old(self), &s1, &s2); }"),
                  ("after", "self.skip_ignored();", "proof { lemma_conserved_trans(&*old(self), &s2, &*self); }")]),
-        P("start_root_node", [WF, ("ensures", "conserved", C), ("ensures", "fuel", F), KEEP,
+        P("start_root_node", [WF, ("ensures", "conserved", C), ("ensures", "fuel", F), KEEP, FLUSH,
                               ("ensures", "stops_at_significant", "final(self).current_token is Some ==> !ignored_kind(final(self).current_token->0.kind)")],
           rewrites=BORROW + [("NodeGuard::new(self.builder.clone())", "NodeGuard::new_shim()", 1)],
           hints=[("before", "self.push_ignored();", "let ghost s1 = *self; proof { assert(s1.conserved(old(self))) by { lemma_conserved_refl(&*old(self)); }; }"),
@@ -439,5 +482,142 @@ UNIT = {
                  ("before", "self.err(\"expected end of input\");", "let ghost s2 = *self; proof { lemma_conserved_trans(&*old(self), &s1, &s2); }"),
                  ("after", "self.err(\"expected end of input\");", "proof { lemma_conserved_trans(&*old(self), &s2, &*self); }"),
                  ("body_end", None, "proof { if self.errors@.len() == old(self).errors@.len() { lemma_conserved_trans(&*old(self), &s1, &*self); } }")]),
+    
+        # ---------------- grammar functions that consume tokens directly ----------------
+        dict(file=PM, kind="const", name="DEFAULT_RECURSION_LIMIT"),
+        P("new", [("ensures", "initial_state", "r.wf() && r.all_text() =~= input@ && r.errors@.len() == 0 && r.recursion_limit.current == 0 && r.builder.text() =~= Seq::<char>::empty() && r.current_token is None && r.pending@.len() == 0")],
+          rewrites=[("Rc::new(RefCell::new(SyntaxTreeBuilder::new()))", "SyntaxTreeBuilder::new()", 1)], props=["C02", "C01"]),
+        G(TY, "parse", [GWF,
+            ("requires", "lookahead_peeked_or_fresh", "true"),
+            ("ensures", "lossless", "final(p).all_text() =~= old(p).all_text()", ["C02"]),
+            ("ensures", "advanced", "final(p).advanced(old(p))"),
+            ("ensures", "fuel", "final(p).fuel() <= old(p).fuel() && (res is Ok ==> final(p).fuel() < old(p).fuel())"),
+            ("decreases", None, "old(p).fuel()"),
+          ], ret="res",
+          hints=[
+              ("after", "let checkpoint = p.checkpoint_node();", "let ghost s0 = *p;"),
+              ("before", "let _guard = p.start_node(SyntaxKind::LIST_TYPE);", "let ghost s1 = *p; proof { lemma_conserved_trans(&*old(p), &s0, &s1); }"),
+              ("after", "let _guard = p.start_node(SyntaxKind::LIST_TYPE);", "let ghost s2 = *p; proof { lemma_conserved_trans(&*old(p), &s1, &s2); }"),
+              ("after", "p.bump(S!['[']);", "let ghost s3 = *p; proof { lemma_conserved_trans(&*old(p), &s2, &s3); }"),
+              ("after", "p.limit_err(\"parser recursion limit reached\");", "proof { lemma_conserved_trans(&*old(p), &s3, &*p); }"),
+              ("before", "let result = parse(p);", "let ghost s4 = *p; proof { assert(s4.all_text() =~= s3.all_text());\n"
+                                                   "        assert(p.recursion_limit.current == old(p).recursion_limit.current + 1 && p.recursion_limit.current <= p.recursion_limit.limit); /* C01: nesting depth is bounded by the limit */ }"),
+              ("after", "let result = parse(p);", "let ghost s5 = *p;"),
+              ("after", "p.recursion_limit.decrement();", "let ghost s6 = *p; proof { assert(s6.all_text() =~= s5.all_text()); assert(s6.conserved(&s3)) by { assert(s4.builder == s3.builder && s4.errors == s3.errors && s6.builder == s5.builder && s6.errors == s5.errors); }; lemma_conserved_trans(&*old(p), &s3, &s6); }"),
+              ("before", "p.expect(T![']'], S![']']);", "let ghost s7 = *p; proof { if s7 != s6 { lemma_conserved_trans(&*old(p), &s6, &s7); } }"),
+              ("after", "p.expect(T![']'], S![']']);", "proof { lemma_conserved_trans(&*old(p), &s7, &*p); }"),
+              ("before", "let _guard = p.start_node(SyntaxKind::NAMED_TYPE);", "let ghost n1 = *p; proof { lemma_conserved_trans(&*old(p), &s0, &n1); }"),
+              ("after", "let _guard = p.start_node(SyntaxKind::NAMED_TYPE);", "let ghost n2 = *p; proof { lemma_conserved_trans(&*old(p), &n1, &n2); }"),
+              ("after", "let _name_node_guard = p.start_node(SyntaxKind::NAME);", "let ghost n3 = *p; proof { lemma_conserved_trans(&*old(p), &n2, &n3); }"),
+              ("after", "p.push_token(SyntaxKind::IDENT, token);", "proof { lemma_prefix_append(n3.builder.text(), token.data@); assert(p.conserved(&n3)) by { assert(p.errors@.subrange(0, n3.errors@.len() as int) =~= n3.errors@); assert(pending_text(n3.pending@) =~= Seq::<char>::empty()); }; lemma_conserved_trans(&*old(p), &n3, &*p); }"),
+              ("before", "// There may be whitespace inside a list node or between the type and the non-null `!`.", "let ghost t0 = *p; proof { assert(t0.conserved(&*old(p))); }"),
+              ("before", "// Deal with nullable types", "let ghost t1 = *p; proof { lemma_conserved_trans(&*old(p), &t0, &t1); }"),
+              ("before", "let _guard = checkpoint.wrap_node(SyntaxKind::NON_NULL_TYPE);", "let ghost t2 = *p; proof { lemma_conserved_trans(&*old(p), &t1, &t2); }"),
+              ("after", "p.eat(S![!]);", "proof { lemma_conserved_trans(&*old(p), &t2, &*p); }"),
+              ("before", "// Handle post-node commas, whitespace, comments", "let ghost t3 = *p; proof { if t3 != t1 { } else { } assert(t3.conserved(&*old(p))) by { if t3 == t1 { } else { lemma_conserved_trans(&*old(p), &t1, &t3); } } }"),
+              ("before", "Ok(())\n}", "proof { lemma_conserved_trans(&*old(p), &t3, &*p); }"),
+          ]),
+    
+        G(TY, "ty", [GWF, ("ensures", "conserved", "final(p).conserved(old(p))"), ("ensures", "fuel", "final(p).fuel() <= old(p).fuel()")],
+          hints=[("body_start", None, "let ghost s0 = *p;")],
+          ),
+        G(TY, "named_type", [GWF, ("ensures", "conserved", "final(p).conserved(old(p))"), ("ensures", "fuel", "final(p).fuel() <= old(p).fuel()")],
+          hints=[("before", "let _g = p.start_node(SyntaxKind::NAMED_TYPE);", "let ghost s1 = *p;"),
+                 ("after", "let _g = p.start_node(SyntaxKind::NAMED_TYPE);", "let ghost s2 = *p; proof { lemma_conserved_trans(&*old(p), &s1, &s2); }"),
+                 ("after", "name::name(p);", "proof { lemma_conserved_trans(&*old(p), &s2, &*p); }")]),
+    
+        # standalone type: leading ignored tokens are dropped (no parent node exists for them), so the text is not
+        # conserved here (C02 is about documents); everything else is.
+        G(TY, "standalone_ty", [GWF, ("ensures", "advanced", "final(p).advanced(old(p))"), ("ensures", "fuel", "final(p).fuel() <= old(p).fuel()")],
+          hints=[("after", "p.skip_ignored();", "let ghost s1 = *p;"),
+                 ("after", "p.pending.clear();", "let ghost s2 = *p; proof { assert(s2.advanced(&s1)) by { lemma_conserved_refl(&s1); }; lemma_advanced_trans(&*old(p), &s1, &s2); }"),
+                 ("before", "Ok(_) => (),", "Ok(_) if false => (),") if False else ("body_end", None, "proof { }"),
+                 ]),
+    
+        G(SEL, "selection_set", [GWF, ("ensures", "conserved", "final(p).conserved(old(p))"), ("ensures", "fuel", "final(p).fuel() <= old(p).fuel()")],
+          hints=[("body_start", None, "let ghost s0 = *p;"),
+                 ("before", "let _g = p.start_node(SyntaxKind::SELECTION_SET);", "let ghost s1 = *p;"),
+                 ("after", "let _g = p.start_node(SyntaxKind::SELECTION_SET);", "let ghost s2 = *p; proof { lemma_conserved_trans(&s0, &s1, &s2); }"),
+                 ("after", "p.bump(S!['{']);", "let ghost s3 = *p; proof { lemma_conserved_trans(&s0, &s2, &s3); }"),
+                 ("after", "p.limit_err(\"parser recursion limit reached\");", "proof { lemma_conserved_trans(&s0, &s3, &*p); }"),
+                 ("before", "selection(p);", "let ghost s4 = *p; proof { assert(s4.all_text() =~= s3.all_text()); assert(p.recursion_limit.current == old(p).recursion_limit.current + 1 && p.recursion_limit.current <= p.recursion_limit.limit); /* C01: nesting depth is bounded by the limit */ }"),
+                 ("after", "selection(p);", "let ghost s5 = *p;"),
+                 ("after", "p.recursion_limit.decrement();", "let ghost s6 = *p; proof { assert(s6.all_text() =~= s5.all_text()); assert(s6.conserved(&s3)) by { assert(s4.builder == s3.builder && s4.errors == s3.errors && s6.builder == s5.builder && s6.errors == s5.errors); }; lemma_conserved_trans(&s0, &s3, &s6); }"),
+                 ("after", "p.expect(T!['}'], S!['}']);", "proof { lemma_conserved_trans(&s0, &s6, &*p); }"),
+                 ]),
+        G(SEL, "field_set", [GWF, ("ensures", "conserved", "final(p).conserved(old(p))"), ("ensures", "fuel", "final(p).fuel() <= old(p).fuel()")],
+          hints=[("body_start", None, "let ghost s0 = *p;"),
+                 ("after", "let _g = p.start_root_node(SyntaxKind::SELECTION_SET);", "let ghost s1 = *p;"),
+                 ("after", "let has_braces = matches!(p.peek(), Some(T!['{']));", "let ghost s2 = *p; proof { lemma_conserved_trans(&s0, &s1, &s2); }"),
+                 ("before", "// We need to enforce recursion limits to prevent", "let ghost s3 = *p; proof { if has_braces { lemma_conserved_trans(&s0, &s2, &s3); } }"),
+                 ("after", "p.limit_err(\"parser recursion limit reached\");", "proof { lemma_conserved_trans(&s0, &s3, &*p); }"),
+                 ("before", "selection(p);", "let ghost s4 = *p; proof { assert(s4.all_text() =~= s3.all_text()); assert(p.recursion_limit.current == old(p).recursion_limit.current + 1 && p.recursion_limit.current <= p.recursion_limit.limit); /* C01: nesting depth is bounded by the limit */ }"),
+                 ("after", "selection(p);", "let ghost s5 = *p;"),
+                 ("after", "p.recursion_limit.decrement();", "let ghost s6 = *p; proof { assert(s6.all_text() =~= s5.all_text()); assert(s6.conserved(&s3)) by { assert(s4.builder == s3.builder && s4.errors == s3.errors && s6.builder == s5.builder && s6.errors == s5.errors); }; lemma_conserved_trans(&s0, &s3, &s6); }"),
+                 ("after", "p.expect(T!['}'], S!['}']);", "proof { lemma_conserved_trans(&s0, &s6, &*p); }"),
+                 ]),
+        G(VAL, "object_field", [GWF, ("ensures", "conserved", "final(p).conserved(old(p))"), ("ensures", "fuel", "final(p).fuel() <= old(p).fuel()")],
+          hints=[("body_start", None, "let ghost s0 = *p;"),
+                 ("after", "let _guard = p.start_node(SyntaxKind::OBJECT_FIELD);", "let ghost s1 = *p;"),
+                 ("after", "name::name(p);", "let ghost s2 = *p; proof { lemma_conserved_trans(&s0, &s1, &s2); }"),
+                 ("before", "p.bump(S![:]);", "let ghost s2b = *p; proof { lemma_conserved_trans(&s0, &s2, &s2b); }"),
+                 ("after", "p.bump(S![:]);", "let ghost s3 = *p; proof { lemma_conserved_trans(&s0, &s2b, &s3); }"),
+                 ("after", "p.limit_err(\"parser recursion limit reached\");", "proof { lemma_conserved_trans(&s0, &s3, &*p); }"),
+                 ("before", "value(p, constness, true);", "let ghost s4 = *p; proof { assert(s4.all_text() =~= s3.all_text()); assert(p.recursion_limit.current == old(p).recursion_limit.current + 1 && p.recursion_limit.current <= p.recursion_limit.limit); /* C01: nesting depth is bounded by the limit */ }"),
+                 ("after", "value(p, constness, true);", "let ghost s5 = *p;"),
+                 ("after", "p.recursion_limit.decrement();", "let ghost s6 = *p; proof { assert(s6.all_text() =~= s5.all_text()); assert(s6.conserved(&s3)) by { assert(s4.builder == s3.builder && s4.errors == s3.errors && s6.builder == s5.builder && s6.errors == s5.errors); }; lemma_conserved_trans(&s0, &s3, &s6); }"),
+                 ("body_end", None, "proof { if *p == s2 { lemma_conserved_trans(&s0, &s1, &s2); } }"),
+                 ],
+          rewrites=[("p.recursion_limit.decrement()\n", "p.recursion_limit.decrement();\n", 1)]),
+    
+        # ---------------- standalone entry points (C07) ----------------
+        P("parse_type", [("requires", "wf", "self_in.wf()"),
+                         ("ensures", "no_error_dropped", "tree.errors@.len() == 0 ==> self_in.errors@.len() == 0")],
+          ret="tree", props=["C07", "C01"],
+          rewrites=[("grammar::ty::standalone_ty(&mut self);", "standalone_ty(&mut self);", 1), MUTSELF_1, MUTSELF_2,
+                    ('Rc::try_unwrap\\(this\\.builder\\)\\s*\\.expect\\(\\"More than one reference to builder left\\"\\)\\s*\\.into_inner\\(\\)', "this.builder", 1, "re")],
+          hints=[("after", "this.expect_end_of_input();",
+                  "let ghost errs = this.errors;\n"
+                  "proof { /* C07: no error is reported only if nothing but ignored tokens is left after the type */\n"
+                  "        assert(this.errors@.len() == 0 ==> this.at_end()); }"),
+                 ("before", "match builder {", "proof { assert(builder is Type && builder->Type_0.errors == errs); /* the tree reports exactly the parser's errors */ }")]),
+        P("parse_selection_set", [("requires", "wf", "self_in.wf()"),
+                                  ("ensures", "no_error_dropped", "tree.errors@.len() == 0 ==> self_in.errors@.len() == 0")],
+          ret="tree", props=["C07", "C01"],
+          rewrites=[("grammar::selection::field_set(&mut self);", "field_set(&mut self);", 1), MUTSELF_1, MUTSELF_2,
+                    ('Rc::try_unwrap\\(this\\.builder\\)\\s*\\.expect\\(\\"More than one reference to builder left\\"\\)\\s*\\.into_inner\\(\\)', "this.builder", 1, "re")],
+          hints=[("after", "this.expect_end_of_input();",
+                  "let ghost errs = this.errors;\n"
+                  "proof { /* C07: no error is reported only if nothing but ignored tokens is left after the selection set */\n"
+                  "        assert(this.errors@.len() == 0 ==> this.at_end()); }"),
+                 ("before", "match builder {", "proof { assert(builder is FieldSet && builder->FieldSet_0.errors == errs); }")]),
+        r'''
+// ---------------- property-level lemmas over the contracts ----------------
+// C02: if the conserved quantity is conserved from Parser::new (where it is the input) up to the state document() ends in
+// -- push_ignored() just ran (queue empty), the look-ahead token is None or EOF (empty text), the lexer has handed out
+// everything -- then the tree text IS the input.  (document() itself drives a closure and is not verified; that it ends
+// in this state is read off its last lines: frame check `document_ends_with_flush`.)
+pub proof fn lemma_lossless(p0: &Parser, p: &Parser, input: Seq<char>)
+    requires
+        p0.all_text() =~= input,
+        p.all_text() =~= p0.all_text(),
+        p.pending@.len() == 0,
+        cur_text(p.current_token) =~= Seq::<char>::empty(),
+        p.lexer.rest() =~= Seq::<char>::empty(),
+    ensures
+        p.builder.text() =~= input,
+{
+    assert(pending_text(p.pending@) =~= Seq::<char>::empty());
+}
+// C04: with a token limit, the tree text is always a prefix of the input.
+pub proof fn lemma_tree_is_prefix_of_input(p0: &Parser, p: &Parser, input: Seq<char>)
+    requires p0.all_text() =~= input, p.all_text() =~= p0.all_text()
+    ensures is_prefix(p.builder.text(), input)
+{
+    let rest = pending_text(p.pending@) + cur_text(p.current_token) + p.lexer.rest();
+    assert(p.all_text() =~= p.builder.text() + rest);
+    lemma_prefix_append(p.builder.text(), rest);
+}
+''',
     ],
 }
